@@ -316,28 +316,40 @@ Definition subtitles_of (bs : list block) : option (list subtitle) := subtitles_
 Inductive start_cfg := StartNone | StartTCP | StartLabel (l : label).
 Inductive rows_cfg := RowsDefault | RowsMNR | RowsInt (n : Z).
 
-Definition programme_start (r : frame_rate) (g : list Z) (c : start_cfg) : Q :=
+(* numeric GSI fields are ASCII digits.  A field holding something else is "not a number" (the reader falls back to
+   a default) - except that fields padded or decorated with blanks, signs or underscores are left outside this
+   specification (None), because number parsers differ on them *)
+Definition lenient_char (c : Z) : bool := (c =? 0x20) || in_range 9 13 c || (c =? 0x2B) || (c =? 0x2D) || (c =? 0x5F).
+Definition digits_value (bs : list Z) : option Z :=
+  fold_left (fun acc c => match acc, digit_val c with Some a, Some d => Some (10 * a + d) | _, _ => None end) bs (Some 0).
+Inductive field := Number (n : Z) | NotANumber.
+Definition numeric_field (bs : list Z) : option field :=
+  match digits_value bs with
+  | Some n => Some (Number n)
+  | None => if existsb lenient_char bs then None else Some NotANumber
+  end.
+
+Definition programme_start (r : frame_rate) (g : list Z) (c : start_cfg) : option Q :=
   match c with
-  | StartNone => 0%Q
-  | StartLabel l => time_of r l
+  | StartNone => Some 0%Q
+  | StartLabel l => Some (time_of r l)
   | StartTCP =>
-      match gsi_tcp g with
-      | [a; b; c; d; e; f; g; h] =>
-          match two_digit a b, two_digit c d, two_digit e f, two_digit g h with
-          | Some hh, Some mm, Some ss, Some ff => time_of r (hh, mm, ss, ff)
-          | _, _, _, _ => 0%Q                                   (* not a time code: no shift *)
-          end
-      | _ => 0%Q
+      let t := gsi_tcp g in
+      match numeric_field (sub 0 2 t), numeric_field (sub 2 2 t), numeric_field (sub 4 2 t), numeric_field (sub 6 2 t) with
+      | Some (Number hh), Some (Number mm), Some (Number ss), Some (Number ff) => Some (time_of r (hh, mm, ss, ff))
+      | Some _, Some _, Some _, Some _ => Some 0%Q                (* not a time code: no shift *)
+      | _, _, _, _ => None
       end
   end.
-Definition max_rows (g : list Z) (c : rows_cfg) : Z :=
-  if teletext_dsc (gsi_dsc g) then 23 else
+Definition max_rows (g : list Z) (c : rows_cfg) : option Z :=
+  if teletext_dsc (gsi_dsc g) then Some 23 else
   match c with
-  | RowsDefault => 23
-  | RowsInt n => n
-  | RowsMNR => match gsi_mnr g with
-               | [a; b] => match two_digit a b with Some n => n | None => 23 end
-               | _ => 23
+  | RowsDefault => Some 23
+  | RowsInt n => Some n
+  | RowsMNR => match numeric_field (gsi_mnr g) with
+               | Some (Number n) => Some n
+               | Some NotANumber => Some 23
+               | None => None
                end
   end.
 
@@ -412,11 +424,14 @@ Definition presentation (file : list Z) (sc : start_cfg) (rc : rows_cfg) : optio
       match subtitles_of bs with
       | None => None
       | Some subs =>
-          let rows := max_rows g rc in
-          if rows <? 1 then None else
-          match paragraphs_go r (programme_start r g sc) (decoder_spec (gsi_cct g)) (teletext_dsc (gsi_dsc g)) subs (-1) [] None with
-          | Some ps => Some (by_group ps, rows)
-          | None => None
+          match max_rows g rc, programme_start r g sc with
+          | Some rows, Some start =>
+              if rows <? 1 then None else
+              match paragraphs_go r start (decoder_spec (gsi_cct g)) (teletext_dsc (gsi_dsc g)) subs (-1) [] None with
+              | Some ps => Some (by_group ps, rows)
+              | None => None
+              end
+          | _, _ => None
           end
       end
   | _, _ => None
